@@ -9,7 +9,12 @@ import corpus
 import tgen
 from vlib import CACHE, hexs, unhexs, repo_hash
 
-EDGE = [
+# regex literal texts: valid, invalid, unsupported syntax, oversized programs, empty, long (the macro must treat the text as a text:
+# seed C13-12 compiled it during expansion and panicked on an error message of another shape)
+REGEX_EDGE = ['x, =~ r"(unclosed"', 'x, =~ r"^\\w{4000}$"', 'x, =~ r"(a{1000}){1000}"', 'x, =~ ""', 'x, =~ r"(?i)abc"', 'x, =~ r"\\p{Greek}+"', 'x, =~ r"(\\d+)\\1"',
+              'x, =~ r"(?=a)b"', 'x, =~ "a{2,1}"', 'x, =~ r"[z-a]"', 'x, =~ r"*"', 'x, =~ r"(?P<n>a)(?P<n>b)"', 'x, =~ r"\\u{110000}"', 'x, S { a: =~ r"x{99999999999}" }',
+              'x, =~ "' + "a|" * 3000 + 'b"', 'x, =~ r"\\pN{4000}"', 'x, Some(=~ r"(((((((((((a*)*)*)*)*)*)*)*)*)*)*)*")', 'x, =~ r#"\\x{41}"#', 'x, =~ b"bytes"', 'x, =~ r"(?x) a b # comment"']
+EDGE = REGEX_EDGE + [
     'x, #(1, > 2, ..)', 'x, #{ "a": 1, k: Some(_), .. }', 'x, #{ "a": =~ "r.x" }',
     'x, S { *b: 5, **c.len(): > 2, d.0.1: |v| v > 1, .. }', 'x, (0: 1, *1: "s", _, 3.x[2].await: ..=5)',
     'x, [1, .., _, 5]', 'x, Some(_, *1: 5)', 'x, Status::Active', 'x, f()', 'x, =~ pat',
